@@ -11,8 +11,8 @@ UNMODELLED = "unmodelled"
 
 
 def matches(c):
-    """model = implementation, or the oracle's explicit `unmodelled` marker (machine-dependent allocation band; Clustal /
-    Stockholm / Nexus input holding the runes U+0131 / U+017F): no correspondence obligation for that case"""
+    """model = implementation, or the oracle's explicit `unmodelled` marker (machine-dependent allocation band of the unrepaired
+    Phylip parser): no correspondence obligation for that case"""
     return c.model == UNMODELLED or c.model == c.impl
 
 
@@ -32,9 +32,10 @@ LEVEL_TEXT = ("Lean theorems about total executable models of all seven parsers 
 LEVEL_NOTE = ("Trusted: Lean kernel; harness + python watchdog (hang = no answer within 3 s on inputs < 1 kB); the naive "
               "header scanners of Spec/Fmt.lean; tools/extract/fmtfacts.go (syntactic recognition of the guards); "
               "the rune reader model Model/Fmt/Utf8.lean (ReadRune / WriteRune as Go's unicode/utf8 does it: compared with "
-              "the implementation on every generated input with bytes >= 128; the models are defined on ALL byte strings, "
-              "except that the Clustal / Stockholm / Nexus models make no claim for an input holding U+0131 or U+017F, which "
-              "strings.ToUpper maps to I / S in the keyword test: such inputs are judged by the predicate only). Agreement of the Nexus DIMENSIONS reading with the naive scanner is checked on the "
+              "the implementation on every generated input with bytes >= 128; all seven models are defined on ALL byte strings; "
+              "the keyword tests of the Clustal / Stockholm / Nexus lexers upper-case rune-wise - Utf8.upperLit: of all runes >= 0x80 "
+              "only U+0131 and U+017F have an ASCII upper case, I / S - and keywords spelled with these runes are generated "
+              "and compared). Agreement of the Nexus DIMENSIONS reading with the naive scanner is checked on the "
               "implementation only: see evidence 'partial'.")
 TECHNIQUE = "Lean 4 proof (total parser models, container invariant by induction over token lists) + exhaustive-truncation / mutation differential run"
 LEAN_MODULES = ["Gv.Props.C03"]
@@ -57,11 +58,13 @@ REQUIRED_THEOREMS = ["Gv.Props.C03." + n for n in [
     "nexus_counterexample_empty_command", "nexus_counterexample_second_data_block",
     # the raw input, ALL byte strings (rune reader model Model/Fmt/Utf8.lean, Proofs/Utf8Norm.lean)
     "fasta_parseBytes_ascii", "fasta_outcome_bytes_partial", "fasta_outcome_bytes",
-    "phylip_parseBytes_ascii", "phylip_outcome_bytes", "phylip_multi_outcome_bytes", "partition_outcome_bytes",
+    # the rune lexer of FASTA (Model/Fmt/FastaRunes.lean, mirrors lexer.go on ReadRune / WriteRune) = the byte lexer on Utf8.norm
+    "fasta_rune_scan", "fasta_rune_lexer",
+    "phylip_parseBytes_ascii", "phylip_header_reading_raw", "phylip_outcome_bytes", "phylip_multi_outcome_bytes", "partition_outcome_bytes",
     "clustal_outcome_bytes", "stockholm_outcome_bytes", "nexus_outcome_bytes", "parseBytes_ascii_claim"]]
 TRUSTED = ["bufio.Reader buffering (ReadRune = utf8.DecodeRune on the remaining input; the decoding itself is modelled in "
-           "Model/Fmt/Utf8.lean and compared on every input with bytes >= 128); strings.ToUpper on U+0131 / U+017F (Clustal, "
-           "Stockholm, Nexus keyword tests: no model claim for inputs holding these runes)",
+           "Model/Fmt/Utf8.lean and compared on every input with bytes >= 128); unicode.ToUpper: of the runes >= 0x80 only "
+           "U+0131 and U+017F have an ASCII upper case (Utf8.upperRune; Clustal, Stockholm, Nexus keyword tests)",
            "python watchdog: hang = no answer within TIMEOUT",
            "tools/extract/fmtfacts.go: recognises the proposed guards syntactically; the models are parametric in these facts"]
 ASSUMPTIONS = ["a NUL byte is goalign's in-band end-of-input marker (lexers return rune 0 for EOF): the Phylip "
@@ -79,7 +82,9 @@ RULE = ("valid files of each format (python writers + hand-written variants: int
         "above U+10FFFF, lone continuation bytes, FE/FF, Unicode blanks, U+0131/U+017F - in names, residues (columns of "
         "equal WRITTEN length, so that many cases succeed), header lines with the written / raw / rune length, strict "
         "Phylip name fields of 10 runes, keywords, at the end of the input, inserted at / substituted for token boundaries of "
-        "every seed file, in multi-Phylip streams, partition strings and through the auto-detecting entry point; "
+        "every seed file, in multi-Phylip streams, partition strings and through the auto-detecting entry point; every Clustal / "
+        "Stockholm / Nexus seed file with its keywords spelled with U+017F / U+0131 (all keywords, one keyword, one letter, "
+        "every s / i of the file) and truncations of these; "
         "non-trivial = differs from every seed file and the first changed byte lies beyond the header")
 
 PARTIAL = [
@@ -117,12 +122,18 @@ PARTIAL = [
     "bytes >= 128: the lexers read runes; Model/Fmt/Utf8.lean models ReadRune (utf8.DecodeRune: ill-formed byte = U+FFFD of "
     "width 1) and WriteRune, every format model is defined on the raw input through it (a byte outside a well-formed "
     "sequence reaches names and residues as EF BF BD: lengths are lengths of the WRITTEN bytes; strict Phylip names are ten "
-    "runes). That the byte lexers on Utf8.norm equal the rune lexers rests on the facts of Proofs/Utf8Norm.lean (rune < 0x80 "
-    "iff ASCII byte, written back as itself; rune >= 0x80 written with bytes >= 0x80 only) and on the correspondence run, not "
-    "on a proved lexer equivalence. The header-consistency clause of phylip_outcome_bytes reads the header of Utf8.norm bs "
-    "(the oracle predicate reads the raw bytes; equality of the two readings is not proved). REMAINING restriction: Clustal, "
-    "Stockholm and Nexus inputs that hold U+0131 or U+017F (strings.ToUpper maps them to I / S, so `clu\u017ftal` is the "
-    "keyword): the models answer `no claim` (parseBytes = none), predicate only. Phylip allocations of 2^27..2^44 entries "
+    "runes). That the byte lexer on Utf8.norm equals the rune lexer is PROVED for FASTA (Model/Fmt/FastaRunes.lean mirrors "
+    "io/fasta/lexer.go on runes - read / unread / WriteRune; fasta_rune_scan: one Scan, every list of runes; fasta_rune_lexer: "
+    "Fasta.lex (Utf8.norm bs) = the rune lexer's tokens on Utf8.runes bs, all byte strings; Proofs/FastaRunes.lean). For the "
+    "other five lexers it rests on the same facts (Proofs/Utf8Norm.lean: rune < 0x80 iff ASCII byte, written back as itself; "
+    "rune >= 0x80 written with a non-empty run of bytes >= 0x80; every class constant is ASCII) and on the correspondence run, "
+    "not on a proved lexer equivalence. The header-consistency clause and the blank-input clause of phylip_outcome_bytes read the RAW "
+    "bytes, as the oracle predicate does (phylip_header_reading_raw: declaredPhylip and blankToNul read the same off "
+    "Utf8.norm bs and off bs, for all byte strings - Proofs/Utf8Header.lean). The keyword tests of the Clustal, "
+    "Stockholm and Nexus lexer models upper-case rune-wise (Utf8.upperLit: U+0131 / U+017F become I / S, so `clu\u017ftal`, "
+    "`matr\u0131x`, `# \u017fTOCKHOLM 1.0` are keywords, as in the Go code); clustal_outcome_bytes, stockholm_outcome_bytes and "
+    "nexus_outcome_bytes hold for ALL byte strings without exception and the former `no claim` answer is gone (on ASCII literals "
+    "upperLit is the byte-wise upper case: Utf8Norm.upperLit_ascii, which carries the C02 round-trip proofs over). Phylip allocations of 2^27..2^44 entries "
     "(unrepaired code only): predicate only, no model",
 ]
 
